@@ -19,6 +19,27 @@ CLAIMED = {
         design='DESIGN.md §5 C01',
         note=NOTE_COMMON + 'Regex operands restricted to literal patterns; NaN/Infinity outside the generator.',
         technique='Lean 4 proof over an executable engine model + generated registry (decide) + differential correspondence'),
+    'C02': dict(
+        text=('Lean theorems: whenever the aggregation loop returns, its insertion-ordered store equals "distinct key tuples '
+              'in first-appearance order, each holding the fold of the per-row update over exactly its group in source order" '
+              '(refinement proved for all tables/keys/aggregates); groups are non-empty, pairwise key-distinct, disjoint and '
+              'cover the selection; closed forms of count(*)/count/sum/first/last and step laws of min/max; group-wise counts '
+              'and sums add up to the totals; empty selection gives no row; HAVING drops falsy groups. Tied to the code by '
+              'correspondence over exhaustive small key multisets and seeded random grouped queries.'),
+        design='DESIGN.md §5 C02',
+        note=NOTE_COMMON + 'Python dict insertion order and tuple equality/hash of int/bool/Decimal are modelled (eqKey).',
+        technique='Lean 4 refinement proof (upsert fold = group/fold) + differential correspondence'),
+    'C03': dict(
+        text=('Lean theorems: the multi-pass ORDER BY loop (one stable list.sort per run of equal direction, right to left) '
+              'equals ONE stable sort by the lexicographic comparator for every key list and ASC/DESC pattern (induction over '
+              'runs on top of "two stable passes = one lexicographic pass"); the comparator is a proved total preorder '
+              '(including numeric cross-scaling of decimals); result is a sorted, stable permutation; NULL first/last; '
+              'DISTINCT = first occurrences (sublist, pairwise distinct, covers); LIMIT = take; order of application. Tied to '
+              'the code by correspondence over all direction patterns up to 4 keys with a stability witness column, and '
+              'random queries with hidden/aggregate keys, DISTINCT and LIMIT.'),
+        design='DESIGN.md §5 C03',
+        note=NOTE_COMMON + 'list.sort stability and reverse=True semantics are modelled; partially ordered key types excluded.',
+        technique='Lean 4 proof (multi-pass stable sort = lexicographic stable sort) + differential correspondence'),
 }
 
 PENDING_REASON = 'check under construction in this round (model or correspondence not yet registered); not claimed yet'
